@@ -90,7 +90,7 @@ def _rt(cls_sel, z0, na, xsel, nframes, route):
     return r.dumps_xyz().split("\n")[2:] == text.split("\n")[2:]       # atom lines are a fixed point (the comment line carries the name)
 
 
-def h_xyz_frames(cls_sel: int, z0: int, na: int, shift: int, xsel: int, third: int) -> bool:
+def h_xyz_frames(cls_sel: int, z0: int, na: int, shift: int, xsel: int, third: int, dummy: bool) -> bool:
     """
     a multi-frame xyz text of DIFFERENT molecules: frame 2 has the atom count of frame 1 but other elements / another atom order (element list
     shifted or reversed), frame 3 another count; read back with loads_all_xyz / yield_from_xyz: every frame has its own count, order, elements and coordinates
@@ -112,7 +112,8 @@ def h_xyz_frames(cls_sel: int, z0: int, na: int, shift: int, xsel: int, third: i
     for els, k in frames:
         n = len(els)
         coords = np.array([XYZ[(xsel + i + k) % len(XYZ)] for i in range(n)], dtype=float).reshape((n, 3))
-        text += cls([Atom(z) for z in els], coords=coords, name=f"f{k}").dumps_xyz()
+        # optionally the first atom of every frame is a dummy-TYPE atom that still has its element (e.g. mol2 'Du.C'): xyz carries the element
+        text += cls([Atom(z, atype=(AtomType.Dummy if (dummy and i == 0) else AtomType.Regular)) for i, z in enumerate(els)], coords=coords, name=f"f{k}").dumps_xyz()
         want.append((els, coords))
     got = cls.loads_all_xyz(text)
     if len(got) != len(want):
